@@ -409,6 +409,19 @@ func genF15(add func(tcase)) {
 				File: &pbfgen.File{Header: pbfgen.StdHeader(), Blocks: []pbfgen.Block{{ZeroString: zs, Groups: gs}, {Groups: mixedGroups(300, false)}}}})
 		}
 	}
+	// the fields of Way and Relation messages written in the opposite order (vals before keys,
+	// lons before lats before refs, types before memids before roles, info before the id)
+	for _, withLoc := range []bool{false, true} {
+		w := pbfgen.Way{ID: 42, Tags: [][2]string{{"highway", "path"}, {"name", "x"}}, Refs: []int64{1, 2, 3}, Info: pbfgen.FullInfo(42), FieldsReversed: true}
+		if withLoc {
+			w.Lats, w.Lons = []int64{10, 20, 30}, []int64{40, 50, 60}
+		}
+		rl := pbfgen.Relation{ID: 52, Tags: [][2]string{{"type", "route"}}, Info: pbfgen.FullInfo(52), FieldsReversed: true,
+			Members: []pbfgen.Member{{Type: 0, Ref: 1, Role: "stop"}, {Type: 1, Ref: 42, Role: ""}, {Type: 2, Ref: 7, Role: "x"}}}
+		add(tcase{Family: "F15", Desc: fmt.Sprintf("way and relation fields in reverse order, way locations=%v", withLoc), NonTrivial: true,
+			File: &pbfgen.File{Header: pbfgen.StdHeader(), Blocks: []pbfgen.Block{{Groups: []pbfgen.Group{{Ways: []pbfgen.Way{fatWay(41), w, fatWay(43)}},
+				{Relations: []pbfgen.Relation{fatRelation(51), rl, fatRelation(53)}}}}, {Groups: mixedGroups(300, false)}}}})
+	}
 	// keys_vals present although no node has a tag (one 0 per node), first / last node tagless
 	for _, pat := range []string{"---", "t--", "--t", "-t-", "ttt"} {
 		d := &pbfgen.Dense{Info: true, Cols: pbfgen.ColsMask(63), KeysVals: true}
